@@ -96,8 +96,16 @@ ValueEq(r, e) ==
 
 PropOf(c) == IF c \in ListingCmds THEN "C14" ELSE "C16"
 
+\* certainly well-formed field lines: a name of letters, `_`, `-` (not `binary`, which starts a payload header), a value without LF
+\* (values of the generated cases are valid UTF-8 by construction)
+NameChT(c) == (c >= 65 /\ c <= 90) \/ (c >= 97 /\ c <= 122) \/ c = 95 \/ c = 45
+WireValid(fields) == \A j \in 1..Len(fields) :
+                       /\ fields[j][1] # <<>> /\ fields[j][1] # <<98,105,110,97,114,121>>
+                       /\ \A k \in 1..Len(fields[j][1]) : NameChT(fields[j][1][k])
+                       /\ \A k \in 1..Len(fields[j][2]) : fields[j][2][k] # 10
 TypedViols(r) ==
-  IF r.out = "unparsed" THEN {}
+  \* the protocol layer refused the lines: fine for lines that are not well-formed, a defect for well-formed ones
+  IF r.out = "unparsed" THEN (IF WireValid(r.fields) THEN {<<PropOf(r.cmd), "well-formed reply lines were rejected before they reached the typed layer", r.cmd>>} ELSE {})
   ELSE IF r.out = "unknown_cmd" THEN {<<"HARNESS", "typed driver does not know the command", "">>}
   ELSE IF r.out = "panic" THEN {<<"C12", "typed conversion (or reading the converted value) panicked", r.cmd>>}
   ELSE LET e == Expected(r) IN
